@@ -1,8 +1,9 @@
 package types
 
 import (
-	"math/big"
-	"strconv"
+	"fmt"
+
+	sdkmath "cosmossdk.io/math"
 )
 
 const (
@@ -14,6 +15,8 @@ const (
 
 	UndPow  = 1e9  // multiplier for converting from und to (nano) nund
 	NundPow = 1e-9 // multiplier for converting from (nano) nund to und
+
+	UndPowInt = 1000000000 // UndPow as an integer, for exact arithmetic
 )
 
 func ConvertUndDenomination(amount string, from string, to string) (string, error) {
@@ -24,23 +27,27 @@ func ConvertUndDenomination(amount string, from string, to string) (string, erro
 
 	switch from {
 	case FundDenom: // from und to nund
-		fromAmt, err := strconv.ParseFloat(amount, 64)
+		// exact decimal arithmetic: binary floating point cannot represent most decimal
+		// fractions (0.000000015 FUND came out as 14nund)
+		fromAmt, err := sdkmath.LegacyNewDecFromStr(amount)
 		if err != nil {
 			return "", err
 		}
-		fromAmtBf := new(big.Float).SetFloat64(fromAmt)
-		res := fromAmtBf.Mul(fromAmtBf, big.NewFloat(UndPow))
-		result := new(big.Int)
-		res.Int(result)
-		return result.String() + to, nil
+		return fromAmt.MulInt64(UndPowInt).TruncateInt().String() + to, nil
 	case NundDenom: // from nund to fund
-		fromAmt, err := strconv.ParseFloat(amount, 64)
+		fromAmt, err := sdkmath.LegacyNewDecFromStr(amount)
 		if err != nil {
 			return "", err
 		}
-		fromAmtBf := new(big.Float).SetFloat64(fromAmt)
-		res := fromAmtBf.Mul(fromAmtBf, big.NewFloat(NundPow))
-		return res.Text('f', 9) + to, nil
+		nund := fromAmt.RoundInt() // a fraction of a nund is rounded to the nearest nund
+		sign := ""
+		if nund.IsNegative() {
+			sign = "-"
+			nund = nund.Neg()
+		}
+		whole := nund.QuoRaw(UndPowInt)
+		frac := nund.ModRaw(UndPowInt)
+		return sign + fmt.Sprintf("%s.%09d", whole.String(), frac.Int64()) + to, nil
 	}
 
 	return "", nil
